@@ -1,7 +1,9 @@
 #!/bin/sh
-# run every claimed check's thorough tier once (no evidence), one summary line each
+# tools/thorough_all.sh [Cnn ...]: run the thorough tier of the given (default: every claimed) check once (no evidence)
 cd "$(dirname "$0")/.."
-for P in $(/venv/bin/python -c "import json; print(' '.join(c['property_id'] for c in json.load(open('MANIFEST.json'))['checks']))"); do
+LIST="$*"
+[ -z "$LIST" ] && LIST=$(/venv/bin/python -c "import json; print(' '.join(c['property_id'] for c in json.load(open('MANIFEST.json'))['checks']))")
+for P in $LIST; do
   S=$(date +%s)
   OUT=$(VERIF_SEED=${VERIF_SEED:-1} ./check $P --tier thorough --no-evidence 2>&1); RC=$?
   echo "$P thorough rc=$RC $(( $(date +%s) - S ))s"
